@@ -50,7 +50,8 @@ def diag_relevant(unit, d, prop, extracted):
 
 def known_match(known, prop, unit_name, d):
     for k in known.get("known", []):
-        if k.get("property") != prop:
+        kp = k.get("property")
+        if prop not in (kp if isinstance(kp, list) else [kp]):
             continue
         if k.get("unit") and k["unit"] != unit_name:
             continue
@@ -162,7 +163,7 @@ def main(argv):
             for f in cf.as_completed(futures):
                 results[futures[f]] = f.result()
         # ---- Verus units
-        n_oblig = n_disch = 0
+        n_oblig = n_disch = n_known_failing = 0
         smt_ms = 0
         fns_under_contract = []
         transforms = set()
@@ -184,12 +185,22 @@ def main(argv):
             transforms |= set(g.transforms)
             trusted |= set("shim:" + s for s in unit.get("shims", []))
             smt_ms += res.smt_ms
-            failed_funcs = set(d.func for d in res.diags)
+            # functions whose only failures are listed known findings are reported separately, not as obligations
+            kf_funcs = set()
+            for d in res.diags:
+                if d.func != "vf_canary" and diag_relevant(unit, d, prop, extracted) and known_match(known, prop, u, d):
+                    kf_funcs.add(d.func)
+            for d in res.diags:
+                if d.func in kf_funcs and diag_relevant(unit, d, prop, extracted) and not known_match(known, prop, u, d):
+                    kf_funcs.discard(d.func)
             # obligations = Verus verification items (functions, lemmas) mapped to this property
             for vname, info in sorted(res.functions.items()):
                 qual = vname
                 props, panic = fn_tags(unit, qual, extracted)
                 if prop not in (props | panic):
+                    continue
+                if qual in kf_funcs or ("::" in qual and qual.split("::")[-1] in kf_funcs):
+                    n_known_failing += 1
                     continue
                 n_oblig += 1
                 if info["success"]:
@@ -281,7 +292,7 @@ def main(argv):
         # ---- evidence
         wall = time.time() - t0
         cov = dict(
-            obligations=n_oblig, discharged=n_disch,
+            obligations=n_oblig, discharged=n_disch, obligations_failing_as_known_findings=n_known_failing,
             checker_cmd=" ; ".join(checker_cmds) or "none",
             trusted_base=sorted(trusted) + P.get("trusted", []),
             functions_under_contract=fns_under_contract,
